@@ -6,10 +6,13 @@ import re
 from harness.carrier import carrier_yaml
 
 NAMES = {
-    'g1': 'glob1', 'g2': 'glob2', 'g3': 'glob3', 'f1': '_fil1', 'f2': '_fil2', 'l1': '.loc1', 'l2': '.loc2',
+    'g1': 'glob1', 'g2': 'glob2', 'f1': '_1st', 'l1': '.loc1', 'l2': '.loc2',
     'kg1': 'KGLOB1', 'kg2': 'KGLOB2', 'kf1': '_KFIL1', 'pd1': 'pdat1', 'pc1': 'PCON1', 'rg': 'sp',
     'S1': 'SYM1', 'S2': 'SYM2', 'S3': 'SYM3',
     'z1': 'zone1', 'z2': 'zone2', 'z3': 'zone3', 'GLOBAL': 'GLOBAL',
+    # names that differ from others only in ways that must matter: a zone called Global is not GLOBAL; _1st (f1) is a file label like any other;
+    # S is an ordinary one-letter label
+    'z4': 'Global', 'f2': '_fil2', 'g3': 'S',
 }
 
 
